@@ -553,7 +553,7 @@ static void judge(C10Ctx& C, bool left, RhsV& b, bool wantFwd, const std::vector
    double ratio = dq(rmax) / dq(thr);
    S.maxi(std::string("c10.resid/thr.") + (left ? "left." : "right.") + C.phase, ratio);
    S.maxi(std::string("c10.resid/1e-9scale.") + C.phase, dq(rmax) / dq(Q(qd(1e-9) * (normM * xn + bn) + allow)));
-   S.maxi("c10.growth_log10", std::log10(rho));
+   S.maxi("c10.growth_log10." + C.phase, std::log10(rho));
    if(verbose) fprintf(stderr, "  judge %-32s %s upd=%d resid=%.3g thr=%.3g ratio=%.3g |x|=%.3g |b|=%.3g\n", (variant + view).c_str(), C.phase.c_str(), C.nupd, dq(rmax), dq(thr), ratio, dq(xn), dq(bn));
    if(rmax > thr)
    {
@@ -577,7 +577,7 @@ static void judge(C10Ctx& C, bool left, RhsV& b, bool wantFwd, const std::vector
       for(int i = 0; i < n; i++) if(qabs(xq[(size_t)i] - xs[(size_t)i]) > emax) emax = qabs(xq[(size_t)i] - xs[(size_t)i]);
       Q fthr = normI * thr;   // forward error implied by a rounding-level residual: cond-scaled
       S.count("c10.forward_checked");
-      S.maxi("c10.fwd/thr", dq(emax) / dq(fthr));
+      S.maxi("c10.fwd/thr." + C.phase, dq(emax) / dq(fthr));
       if(emax > fthr)
          S.viol("C10:" + variant + ":forward" + view + ":" + C.cell(), "||x - x*||_inf = " + ds(dq(emax)) + " > cond-scaled threshold " + ds(dq(fthr)) + " (cond=" + ds(E.cond()) + ")", C.replay());
    }
@@ -638,7 +638,7 @@ static void agree(C10Ctx& C, bool left, const std::vector<double>& multi, const 
    double rel = std::max(1e-9, 2e-12 * C.growth());
    double allow = 64.0 * E.n * C.eps0 * (normM + 1.0 / (double)C.F->markowitz());
    double thr = normI * (rel * (normM * dinf(multi) + bn) + rel * (normM * dinf(single) + bn) + 2 * allow);
-   S.maxi("c10.agree/thr", diff / thr);
+   S.maxi("c10.agree/thr." + C.phase, diff / thr);
    if(multi == single) S.count("c10.agree.bitwise_equal");
    if(verbose) fprintf(stderr, "  agree %-32s %s diff=%.3g thr=%.3g cond=%.3g\n", variant.c_str(), which, diff, thr, E.cond());
    if(!(diff <= thr))
@@ -868,8 +868,36 @@ static void caseC10(long long k, Rng& g)
    {
       QMat M = genBase(g, fam, n, entDouble);
       std::string kind = g.pick(SINGKINDS);
-      singularize(g, M, kind);
-      if(fam == "badly-scaled")
+      // Domain in which a missed singularity is an alarm (floating-point elimination of an exactly singular matrix leaves a rounding residue
+      // as last pivot, recognised through the absolute pivot tolerance 1e-10; with element growth the residue can legitimately be larger):
+      //  * structural kinds (empty row/column, two column singletons in one row): recognised without arithmetic;
+      //  * network matrices (columns = arcs +1/-1 or roots +-1; totally unimodular, so every intermediate of the elimination is 0/+-1 and
+      //    the arithmetic is exact for every pivot order): dependent columns (cycles) / dependent rows (root-less components), any dimension;
+      //  * duplicate / parallel / integer-dependent rows and columns of small-integer matrices up to dimension 8.
+      // Outside of it a miss is counted, not reported.
+      bool provable;
+      if(n >= 2 && g.chance(0.35))
+      {
+         kind = "network-dependent";
+         M = zeroM(n);
+         for(int c = 0; c < n; c++)
+         {
+            if(g.chance(0.8))
+            {
+               int i = g.range(0, n - 1), j = (i + g.range(1, n - 1)) % n;
+               M[(size_t)i][(size_t)c] = 1;
+               M[(size_t)j][(size_t)c] = -1;
+            }
+            else M[(size_t)g.range(0, n - 1)][(size_t)c] = g.chance(0.5) ? 1 : -1;
+         }
+         provable = true;
+      }
+      else
+      {
+         singularize(g, M, kind);
+         provable = kind == "zero-col" || kind == "zero-row" || kind == "two-singletons-one-row" || n == 1 || n <= 8;
+      }
+      if(fam == "badly-scaled" && kind != "network-dependent")
       {
          // mild power-of-two scaling only: singularity is recognised through the absolute pivot tolerance 1e-10
          for(int i = 0; i < n; i++)
@@ -903,7 +931,9 @@ static void caseC10(long long k, Rng& g)
       rp.str("family", fam).num("n", n).str("utype", ut).str("kind", kind).dbl("markowitz", mark);
       if(n <= 10) rp.str("matrix_rows", matText(M));
       if(!consistent) S.viol("C10:load:return-vs-status:{utype=" + ut + "}", "load() returned a status different from status()", rp.done());
-      if(st != (int)SLinSolver<double>::SINGULAR)
+      S.count(std::string("c10.load.singular_checked.") + (provable ? "alarm_domain" : "observation_only"));
+      if(st != (int)SLinSolver<double>::SINGULAR && !provable) S.count("c10.load.singular_missed_outside_alarm_domain");
+      else if(st != (int)SLinSolver<double>::SINGULAR)
          S.viol("C10:load:missed-singular:{kind=" + kind + "}", "exactly singular matrix (" + kind + ", n=" + std::to_string(n) + ", family " + fam + ") loaded with status " + std::to_string(st) + " instead of SINGULAR", rp.done());
       if(F.stability() != 0) S.count("c10.singular.stability_nonzero");
       S.end(k);
@@ -1002,7 +1032,29 @@ static void caseC10(long long k, Rng& g)
    };
    double minStab = minStabOf(stab0);
    int sinceRefac = 0, maxChain = 0, applied = 0;
+   bool allowEtaArg = g.chance(0.35) && !(uti == 1 && maxUpd > 60);
    bool noUpdateVectorSetUp = false, etaArgSinceRefac = false;
+   auto doRefactor = [&]() -> bool
+   {
+      std::vector<const SVectorBase<double>*> ptr((size_t)n);
+      for(int j = 0; j < n; j++) ptr[(size_t)j] = &cols[(size_t)j];
+      int rs = (int)F.load(ptr.data(), n);
+      S.count("c10.refactorizations");
+      sinceRefac = 0;
+      C.nupd = 0;
+      C.phase = "loaded";
+      etaArgSinceRefac = false;
+      noUpdateVectorSetUp = true;
+      if(rs != (int)SLinSolver<double>::OK)
+      {
+         bool wc2 = E.cond() <= 1e8 && E.iInf <= qd(1e5);
+         if(wc2) S.viol(std::string("C10:load:") + (rs == (int)SLinSolver<double>::SINGULAR ? "false-singular" : "bad-status-" + std::to_string(rs)), "refactorisation of a nonsingular matrix with cond_inf " + ds(E.cond()) + " gives status " + std::to_string(rs), C.replay());
+         else S.count("c10.load.singular_outside_wellcond_domain");
+         return false;
+      }
+      minStab = minStabOf((double)F.stability());
+      return true;
+   };
    double pRefac = g.chance(0.5) ? 0.0 : 0.04;
    Q condCap = qd(1e6);
    for(int step = 0; step < maxUpd; step++)
@@ -1075,7 +1127,7 @@ static void caseC10(long long k, Rng& g)
       // documented alternative (SLinSolver::change: "one may also pass the optional parameter eta to the solution of solveRight() if
       // readily available"): no solve*4update, eta = B^-1 subst from solveRight.  Only valid while no update vector is set up, i.e.
       // directly after load()/change().
-      bool etaArg = noUpdateVectorSetUp && g.chance(0.5);
+      bool etaArg = allowEtaArg && noUpdateVectorSetUp && g.chance(0.5);
       bool usePersist = g.chance(0.7);
       SSVectorBase<double> xl(n, tol);
       SSVectorBase<double>& x = usePersist ? xpersist : xl;
@@ -1137,15 +1189,15 @@ static void caseC10(long long k, Rng& g)
       {
          S.count(threw ? "c10.update.threw" : "c10.update.status_not_ok");
          if(wc && E.c0 <= condCap)
-            S.viol("C10:change:false-singular:{utype=" + ut + "}", "column replacement leading to a nonsingular matrix with cond_inf " + ds(E.cond()) + " (exact pivot element " + ds(dq(alpha[(size_t)r])) + ", update " + std::to_string(sinceRefac) + " since factorisation) " + (threw ? "threw " + what : "left status " + std::to_string(stNow)), C.replay());
+            S.viol("C10:change:false-singular:" + C.cell(), "column replacement leading to a nonsingular matrix with cond_inf " + ds(E.cond()) + " (exact pivot element " + ds(dq(alpha[(size_t)r])) + ", update " + std::to_string(sinceRefac) + " since factorisation) " + (threw ? "threw " + what : "left status " + std::to_string(stNow)), C.replay());
          refac = true;
       }
       else
       {
-         if(stc != stNow) S.viol("C10:change:return-vs-status:{utype=" + ut + "}", "change() returned a status different from status()", C.replay());
+         if(stc != stNow) S.viol("C10:change:return-vs-status:" + C.cell(), "change() returned a status different from status()", C.replay());
          double stab = (double)F.stability();
          S.count("c10.stability.read");
-         S.maxi("c10.inv_stability_log10", -std::log10(std::max(stab, 1e-300)));
+         S.maxi("c10.inv_stability_log10." + C.phase, -std::log10(std::max(stab, 1e-300)));
          if(stab < minStab)
          {
             // SPxBasisBase::change() refactorises here
@@ -1159,30 +1211,14 @@ static void caseC10(long long k, Rng& g)
          refac = true;
       }
       if(sinceRefac > maxChain && !refac) maxChain = sinceRefac;
-      if(refac)
-      {
-         std::vector<const SVectorBase<double>*> ptr((size_t)n);
-         for(int j = 0; j < n; j++) ptr[(size_t)j] = &cols[(size_t)j];
-         int rs = (int)F.load(ptr.data(), n);
-         S.count("c10.refactorizations");
-         sinceRefac = 0;
-         C.nupd = 0;
-         C.phase = "loaded";
-         etaArgSinceRefac = false;
-         noUpdateVectorSetUp = true;
-         if(rs != (int)SLinSolver<double>::OK)
-         {
-            if(wc) S.viol(std::string("C10:load:") + (rs == (int)SLinSolver<double>::SINGULAR ? "false-singular" : "bad-status-" + std::to_string(rs)), "refactorisation of a nonsingular matrix with cond_inf " + ds(E.cond()) + " gives status " + std::to_string(rs), C.replay());
-            else S.count("c10.load.singular_outside_wellcond_domain");
-            break;
-         }
-         minStab = minStabOf((double)F.stability());
-      }
+      if(refac && !doRefactor()) break;
       if(step == maxUpd - 1 || step % 16 == 15 || g.chance(0.8))
       {
          probe(C, g, (step == maxUpd - 1 || step % 16 == 15) ? NVAR : g.range(2, 4), &xpersist);
          noUpdateVectorSetUp = false;   // the probes contain solve*4update calls
       }
+      // the eta-argument update under FOREST_TOMLIN leaves a corrupted factorisation (known finding): observed once, then refactorised
+      if(etaArgSinceRefac && uti == 1 && !doRefactor()) break;
    }
    S.maxi("c10.max_updates_without_refactorization", maxChain);
    int ub = maxChain == 0 ? 0 : maxChain <= 5 ? 1 : maxChain <= 25 ? 2 : maxChain <= 100 ? 3 : 4;
